@@ -158,9 +158,13 @@ CLAIMED['C07'] = dict(
          'unread / unpublished elements for ANY counter values incl. 64-bit wrap-around (tail-head <= capacity kept as a guarantee), element J '
          'of the batch lives in the slot of position claim+J, publication / completion happens once, in claim order, after the copy.  '
          'LockfreeSPSCRingQueue push / pop / produce_push_batch(_fully) / consume_pop_batch: refusal only on an observed full / empty ring, '
-         'data in the slot of the current position, the own counter moves forward by the accepted count after the data, never past the other side.',
+         'data in the slot of the current position, the own counter moves forward by the accepted count after the data, never past the other side.  '
+         'RingChannel / FlexRingChannel recv and send, SendBackoff::push_backoff / notify_senders (the Dekker-style handshake as step contracts): a '
+         'consumer parks on the semaphore only while registered in `idler` and after a pop that failed since it registered / last woke, mirrors '
+         'taken tokens on `pending`, unregisters on every path; a producer leaves without signalling only if it saw no idle consumer or as many '
+         'tokens in flight as the latest idler count it read, and signals at most once after reserving the token.',
     note=TRUST + ' NOT decided: FIFO per producer and exactly-once delivery as whole-history properties, send/recv pause loops, the '
-         'RingChannel/FlexRingChannel notification protocol (memory-model and schedule facts); sequentially consistent atomics; rely: tail/head only '
+         'end-to-end liveness of the RingChannel notification (it needs the fence/seq_cst ordering and the scheduler: memory-model and schedule facts); sequentially consistent atomics; rely: tail/head only '
          'grow and a slot is written by another thread only between its own claim and publication.',
     technique='deductive verification: bit-vector lemmas + step contracts under an interference (rely) model, CBMC on mechanically lowered real code',
     design='§6 C07, §3.4')
